@@ -364,6 +364,30 @@ def transparent_engine(prop, tier, seed, work, known):
     return res
 
 
+def sched_engine(prop, tier, seed, work, known):
+    """Controlled interleavings of the real client (overlay instrumenter + gate driver of C06, lib/atp_engine.py) against a
+    scripted peer that answers every accepted work start once: delay-bounded and seeded random gate-by-gate schedules of the
+    small fixed sessions, of sessions that re-use a run id one call after the other, and of generated ones.  C05's clauses
+    on the observation: no result is LOST (an Execute that never returns while nothing can move), DUPLICATED (an Execute
+    returning twice) or DELIVERED TO ANOTHER CALL / invented (success for a call the peer answered with its step's error,
+    an error for a call it answered with work done)."""
+    import atp_engine as ae
+    import props_c06
+    gates = ae.build_drive()
+    res = {"name": "c05sched", "evaluations": 0, "distinct_nontrivial": 0, "samples": [], "violations": [],
+           "disagreements": [], "known_hits": []}
+    xl = ae.gen_cases("c05x", tier, seed, os.path.join(work, "c05x.cases"))
+    xr = ae.explore(xl, os.path.join(work, "c05explore"))
+    trials, kinds = props_c06.judge_explore(xl, xr, res, "scripted peer that answers every accepted work start once; C05: "
+                                            "results are never lost, duplicated or delivered to another call")
+    res["evaluations"] = trials
+    res["distinct_nontrivial"] = trials
+    res["stats"] = {"gates": gates, "explore_sessions": len(xl), "explore_trials": trials, "explore_sessions_by_kind": kinds,
+                    "rule": "one trial = one gate-by-gate schedule of one session on the real client (delay-bounded: every step "
+                            "delayed singly and in pairs up to a count; or seeded random)"}
+    return res
+
+
 def transparent_replay(d, work):
     import check
     cases = os.path.join(work, "r.cases")
@@ -401,10 +425,12 @@ def register(props):
     entry.setdefault("families", [])
     entry.setdefault("engines", [])
     entry["engines"].append(transparent_engine)
+    entry["engines"].append(sched_engine)
     entry.setdefault("assumptions", [])
     entry["assumptions"] += [
-        "healthy transport: no pipe fault is injected (fragmentation and short reads are not faults); run ids of a session are "
-        "pairwise distinct; handlers terminate once released",
+        "healthy transport: no pipe fault is injected (fragmentation, short reads and a client side that reads late are not "
+        "faults); the run ids of OVERLAPPING calls are pairwise distinct, a serial session may re-use the run id of an earlier "
+        "call (it has returned: an ordinary call); handlers terminate once released",
         "step inputs are in the decodable class of Properties/C05.v (what a CBOR / JSON / YAML decoder into `any` produces), "
         "containers non-nil, map keys distinct on the wire (checked by the model on every case: decodableb)",
         "version 1 is exercised against a scripted legacy server written from the client's expectations (atp/client.go "
@@ -418,8 +444,11 @@ def register(props):
             "ids, scripted outputs from the output schema, undeclared / invalid outputs) x {serial, overlapping with the gates "
             "released in a scripted order different from the issue order, paced by quiescence or in a burst} x {io.Pipe, "
             "OS-pipe-like buffer, either one with every write split into scripted 1..n-byte chunks and scripted short reads} x "
-            "{protocol 3: real RunATPServer, protocol 1: scripted legacy server}; plus the deterministic D26 replay and its "
-            "protocol-3 twins; distinct by case text; non-trivial = (>= 2 calls or a fragmenting transport) and at least one "
+            "{protocol 3: real RunATPServer, protocol 1: scripted legacy server}; serial sessions re-use run ids of earlier calls "
+            "(45% of those with >= 2 calls); `overlap held`: 6-12 calls, ~70% with rejected inputs, issued in a burst over protocol 3 "
+            "and an unbuffered pipe while the client side does not read (back-pressure on the server's output; reading starts at "
+            "quiescence); plus the deterministic D26 replay and its protocol-3 twins; plus c05sched: gate-by-gate schedules of the real "
+            "client against a scripted peer (no result lost, duplicated or delivered to another call); distinct by case text; non-trivial = (>= 2 calls or a fragmenting transport) and at least one "
             "accepted input")
     entry["rule"] = (entry.get("rule", "") + " | " if entry.get("rule") else "") + rule
     entry.setdefault("level_text",
